@@ -279,13 +279,16 @@ def enum_seam_small(tier):
             for starts in itertools.product(range(3), repeat=nl):
                 ra = [{'s': [{'k': 'name', 'v': nm}], 'a': st_, 'b': None, 'top': True} for nm, st_ in zip(L, starts)]
                 for nr in (1, 2, 3):
-                    if nl == 3 and nr == 3 and tier == 'quick' and starts[0] == 2:
-                        continue
                     for R in itertools.product(names, repeat=nr):
                         if not set(R) & set(L):
                             continue
-                        for stag in (False, True):
-                            rb = [{'s': [{'k': 'name', 'v': nm}], 'a': 0, 'b': (None if not stag else 1 + (j % 2)), 'top': True} for j, nm in enumerate(R)]
+                        # the merged configurations (right starts with what the left stops with): every stop vector
+                        if R == L[:nr] or sorted(R) == sorted(L):
+                            stops = [(None,) * nr] + list(itertools.product((1, 2), repeat=nr))
+                        else:
+                            stops = [(None,) * nr, tuple(1 + (j % 2) for j in range(nr))]
+                        for sv in stops:
+                            rb = [{'s': [{'k': 'name', 'v': nm}], 'a': 0, 'b': sv[j], 'top': True} for j, nm in enumerate(R)]
                             yield {'a': {'cls': 'S', 'ctor': {'k': 'ranges', 't': 'abc', 'r': ra}, 'ops': []},
                                    'b': {'k': 'prog', 'p': {'cls': 'S', 'ctor': {'k': 'ranges', 't': 'de', 'r': rb}, 'ops': []}}}
 
@@ -363,7 +366,7 @@ SUBS = [
     Sub('seam', eval_concat, strategy=strat_seam, quick=1200, thorough=12000,
         rule='seam-forcing generator: related settings on both sides of the seam'),
     Sub('seam_small_exhaustive', eval_concat, enumerate=enum_seam_small,
-        exhaustive_note='all left operands built from <=3 applications of {red, blue, bold} ending at the seam x all right operands starting with <=3 of them'),
+        exhaustive_note='all left operands built from <=3 applications of {red, blue, bold} ending at the seam x all right operands starting with <=3 of them (every stop vector in {1,2}^n for the merged configurations)'),
     Sub('join', eval_join, strategy=strat_join, quick=150, thorough=2500),
     Sub('rejoin', eval_rejoin, strategy=strat_value, quick=150, thorough=3000,
         rule='s[:k] + s[k:] for every k in 0..len of each generated value'),
